@@ -21,6 +21,7 @@ import (
 	"strings"
 	"sync"
 	"testing"
+	"unicode"
 
 	"github.com/go-text/typesetting/font"
 	ot "github.com/go-text/typesetting/font/opentype"
@@ -254,6 +255,11 @@ func pickFonts(n int) []*fontEntry {
 			}
 			k := "plain"
 			switch {
+			case !unicodeCmap(lds[i]):
+				// no Unicode/Microsoft cmap subtable: the port falls back to a Macintosh subtable and
+				// most characters of any text are .notdef (a stratum of its own: mixed .notdef/real
+				// glyph runs of any script, reference given the port's mapping, see refFace)
+				k = "cmap-fallback"
 			case tr.GSUB || tr.GPOS:
 				k = "layout-" + size
 			case tr.Kern || tr.Kerx:
@@ -269,7 +275,7 @@ func pickFonts(n int) []*fontEntry {
 	// single-lookup test fonts, the kern-only and the plain ones
 	order := []ref{}
 	names := []string{"layout-large", "layout-large", "layout-medium", "layout-large", "layout-large", "layout-medium", "layout-small",
-		"layout-large", "layout-large", "layout-medium", "kern", "layout-large", "layout-small", "plain"}
+		"layout-large", "layout-large", "layout-medium", "kern", "layout-large", "layout-small", "plain", "cmap-fallback"}
 	lists := map[string][]ref{}
 	for k, l := range strata {
 		l = append([]ref(nil), l...)
@@ -309,9 +315,29 @@ func pickFonts(n int) []*fontEntry {
 				continue
 			}
 		}
+		if fe.refCmapOverridden {
+			ev.Label("font_reference_given_port_cmap")
+		}
 		out = append(out, fe)
 	}
 	return out
+}
+
+// unicodeCmap: the cmap table has a Unicode or Microsoft (symbol, BMP, full) subtable, the only
+// ones the reference selects (read from the table header only).
+func unicodeCmap(ld *ot.Loader) bool {
+	raw, err := ld.RawTable(ot.MustNewTag("cmap"))
+	if err != nil || len(raw) < 4 {
+		return true // no cmap at all: nothing to fall back to
+	}
+	n := int(binary.BigEndian.Uint16(raw[2:]))
+	for i := 0; i < n && 4+8*i+8 <= len(raw); i++ {
+		p, e := binary.BigEndian.Uint16(raw[4+8*i:]), binary.BigEndian.Uint16(raw[6+8*i:])
+		if p == 3 && (e == 0 || e == 1 || e == 10) || p == 0 && e != 5 {
+			return true
+		}
+	}
+	return false
 }
 
 // ---- shaping ----
@@ -529,7 +555,7 @@ func graphemesReversed(script language.Script, dir harfbuzz.Direction) bool {
 // inside that verification for some inputs ("text_start < text_end"), so the call is made in a
 // worker process (this test binary, TestRefVerifyWorker); an abort counts as a failed
 // verification.
-func referenceVerifies(fe *fontEntry, c *Case) (ok, available bool) {
+func referenceVerifies(fe *fontEntry, c *Case, whole []G) (ok, available bool) {
 	hb := fe.refFace()
 	if hb == nil || hb.GlyphCount() == 0 {
 		return false, false
@@ -537,6 +563,23 @@ func referenceVerifies(fe *fontEntry, c *Case) (ok, available bool) {
 	cmd := exec.Command(os.Args[0], "-test.run", "^TestRefVerifyWorker$", "-test.v")
 	cmd.Env = append(os.Environ(), "VERIF_OUT=", "C18_WORKER_CASE="+mustJSON(c))
 	out, _ := cmd.CombinedOutput()
+	// the verdict is about this input only if the reference shaped it to the glyphs the port did
+	// (glyph ids and clusters of the whole text); otherwise (fonts the loaders read differently,
+	// reference-version skew, C05's findings) it is a verdict about something else
+	if i := strings.Index(string(out), "REF_GLYPHS "); i >= 0 {
+		line := string(out)[i+len("REF_GLYPHS "):]
+		if j := strings.IndexByte(line, '\n'); j >= 0 {
+			line = line[:j]
+		}
+		var sb strings.Builder
+		for _, g := range whole {
+			fmt.Fprintf(&sb, "%d=%d,", g.ID, g.Cluster)
+		}
+		if strings.TrimSpace(line) != sb.String() {
+			ev.Label("reference_verdict_not_comparable")
+			return false, false
+		}
+	}
 	switch {
 	case strings.Contains(string(out), "REF_VERIFY_OK"):
 		return true, true
@@ -586,6 +629,13 @@ func TestRefVerifyWorker(t *testing.T) {
 		fmt.Println("REF_VERIFY_UNAVAILABLE")
 		return
 	}
+	// the plain shaping first (what the reference makes of the input), then the verification, which
+	// may abort the process
+	var sb strings.Builder
+	for _, g := range fe.refFace().Shape(refInput(&c, 0)).Glyphs {
+		fmt.Fprintf(&sb, "%d=%d,", g.ID, g.Cluster)
+	}
+	fmt.Println("REF_GLYPHS " + sb.String())
 	if fe.refFace().Shape(refInput(&c, hbref.FlagVerify)).OK {
 		fmt.Println("REF_VERIFY_OK")
 	} else {
@@ -643,11 +693,28 @@ func checkCase(t ev.TB, fe *fontEntry, c *Case, survey func(check string, f fail
 	if len(c.Features) > 0 {
 		labels = append(labels, "features")
 	}
+	if s.props.Direction == harfbuzz.LeftToRight && rtlScripts[s.props.Script] {
+		// class label: left-to-right item of a right-to-left script with letters and a digit (or
+		// regional indicator) directly followed by a mark
+		letter, digitMark := false, false
+		for i := itemStart; i < itemEnd; i++ {
+			r := text[i]
+			if unicode.IsLetter(r) {
+				letter = true
+			}
+			if (unicode.Is(unicode.Nd, r) || r >= 0x1F1E6 && r <= 0x1F1FF) && i+1 < itemEnd && unicode.IsMark(text[i+1]) {
+				digitMark = true
+			}
+		}
+		if letter && digitMark {
+			labels = append(labels, "ltr_item_rtl_script_letters_and_digit_with_mark")
+		}
+	}
 	n := len(whole)
 
 	fail := func(check string, pieces []G, cuts []int, format string, args ...any) {
-		up := "not available"
-		if ok, avail := referenceVerifies(fe, c); avail {
+		up := "reference verdict not available or not comparable (the reference shapes this input to other glyphs)"
+		if ok, avail := referenceVerifies(fe, c, whole); avail {
 			if ok {
 				up = "reference passes its own verification on this input: port defect"
 			} else {
@@ -768,7 +835,7 @@ func checkCase(t ev.TB, fe *fontEntry, c *Case, survey func(check string, f fail
 	if !same {
 		// inputs on which upstream fails its own verification come first (one listed finding);
 		// the structural matchers below only see what the reference handles correctly
-		if ok, avail := referenceVerifies(fe, c); avail && !ok && ev.Known(fUpstream) {
+		if ok, avail := referenceVerifies(fe, c, whole); avail && !ok && ev.Known(fUpstream) {
 			ev.Excluded(fUpstream)
 			ev.Label("upstream_inherited")
 			return
@@ -888,6 +955,22 @@ func genWords(t *rapid.T, fe *fontEntry, maxLen int) []rune {
 			out = append(out, ' ')
 		case 5:
 			out = append(out, rapid.SampledFrom([]rune{'.', ',', '-', '1', 0x00A0, 0x200C, 0x200D, 0x060C, 0x0964, '/'}).Draw(t, "separatorRune"))
+		case 6:
+			// a digit run (or regional indicators), possibly carrying a combining mark: no letter, so
+			// cut out on its own it keeps the direction of the buffer where the whole text of a
+			// right-to-left script is reversed (ensureNativeDirection), and marks after non-letters
+			// are where reordering/fallback positioning see a different neighbourhood in a piece
+			nd := rapid.IntRange(1, 3).Draw(t, "digits")
+			base := rapid.SampledFrom([]rune{'0', '0', 0x0660, 0x06F0, 0x0966, 0x1F1E6}).Draw(t, "digitBase")
+			for i := 0; i < nd; i++ {
+				out = append(out, base+rune(rapid.IntRange(0, 9).Draw(t, "digit")))
+				if rapid.IntRange(0, 2).Draw(t, "digitMark") == 0 {
+					out = append(out, rapid.SampledFrom([]rune{0x0301, 0x0308, 0x0323, 0x064E, 0x0651, 0x0670, 0x05B4, 0x05BC, 0x0711, 0x093C, 0x094D, 0x0DDA, 0x0E31, 0x20DD, 0xFE0F}).Draw(t, "digitMarkRune"))
+				}
+			}
+			if rapid.Bool().Draw(t, "digitSpace") {
+				out = append(out, ' ')
+			}
 		}
 	}
 	if len(out) > maxLen {
